@@ -324,7 +324,7 @@ DBusConnection *verif_stub_bus_service_get_primary_owners_connection (BusService
    IMP (!(ret), ERR_SET (error) && IMP (ts_errkind ((error)->name) != TS_ERR_NO_MEMORY, (addressed) == NULL || TS_CONN (addressed)->staged == (staged0))) && \
    IMP ((addressed) != NULL && TS_MSG (m)->has_fds && !TS_CONN (addressed)->can_unix_fd, TS_CONN (addressed)->staged == (staged0) && !(ret)))
 dbus_bool_t verif_stub_bus_dispatch_matches (BusTransaction *t, DBusConnection *sender, DBusConnection *addressed, DBusMessage *m, DBusError *error)
-{ PRE (m != NULL && PRE_routed_has_serial (m), "bus_dispatch_matches: the routed message has a non-zero serial (a refusal is reported to the monitors as an error reply to it)");
+{ PRE (m != NULL, "bus_dispatch_matches: message given");
   PRE (PRE_bus_dispatch_matches (t, sender, addressed, m, error), "bus_dispatch_matches: message sanitized, captured once, sender active, error clear");
   PRE (error != NULL, "bus_dispatch_matches: error out-parameter");
   G.routed++; G.routed_addressed = TS_CONN (addressed);
@@ -360,7 +360,7 @@ dbus_bool_t verif_stub_bus_matchmaker_get_recipients (BusMatchmaker *mm, BusConn
 
 /* contract of send_one_message (static in dispatch.c; enforced in unit C15.send_one) */
 dbus_bool_t verif_stub_send_one_message (DBusConnection *c, BusContext *ctx, DBusConnection *sender, DBusConnection *addressed, DBusMessage *m, BusTransaction *t, DBusError *error)
-{ PRE (m != NULL && PRE_routed_has_serial (m), "send_one_message: the routed message has a non-zero serial");
+{ PRE (m != NULL, "send_one_message: message given");
   PRE (PRE_send_one_message (c, ctx, sender, addressed, m, t, error), "send_one_message: message sanitized, error clear");
   int k = nondet_int ();
   if (k == 0) { error->name = ts_e_nomem; error->message = ts_s_text; return 0; }                      /* OOM */
